@@ -71,7 +71,8 @@ def expand(case):
     for _ in range(case["nedits"]):
         e = None
         for _try in range(8):
-            e = eg.one()
+            # edits of space formulas inside parametrised trees are rare among the general kinds: boosted
+            e = eg.one(rnd.choice(["space_formula", "child_formula_new"]) if rnd.random() < 0.2 else None)
             if e is not None:
                 break
         if e is None:
